@@ -90,7 +90,7 @@ def build_app(which, docroot):
     from poorwsgi.digest import check_digest, hexdigest
     from poorwsgi.session import PoorSession
     app = new_app(debug=(which == "A"), secret_key="k" * 16,
-                  document_root=docroot)
+                  document_root=docroot, document_index=(which == "B"))
     app.auth_type = "Digest"
     app.auth_map = {"R": {"u": hexdigest("u", "R", "pw")}}
     tag = which
@@ -152,6 +152,14 @@ def build_app(which, docroot):
     @app.route("/abort418")
     def abort418(req):
         abort(418)
+
+    @app.route("/abort200")
+    def abort200(req):
+        abort(200)
+
+    @app.route("/abort0")
+    def abort0(req):
+        abort(0)
 
     @app.route("/crash")
     def crash(req):
@@ -247,6 +255,9 @@ KINDS = {
     "404b": dict(path="/nowhere/else", query="x=<1>"),
     "abort403": dict(path="/abort403"),
     "abort418": dict(path="/abort418"),
+    "abort200": dict(path="/abort200"),
+    "abort200b": dict(path="/abort200", query="again=1"),
+    "abort0": dict(path="/abort0"),
     "crash": dict(path="/crash"),
     "keyerr": dict(path="/keyerr"),
     "form": dict(method="POST", path="/post", body=b"a=1&b=2&a=3",
@@ -439,6 +450,9 @@ def census(apps):
                     continue
                 snap["%s.%s" % (name, attr)] = _c(val, 0, frozenset())
     snap["http.client.responses"] = _c(http.client.responses, 0, frozenset())
+    # the interpreter-wide MIME table as a deployment configured it
+    import mimetypes
+    snap["mimetypes(.verif)"] = repr(mimetypes.guess_type("a.verif"))
     for i, app in enumerate(apps):
         for attr, val in list(vars(app).items()):
             snap["app%d.%s" % (i, attr)] = _c(val, 0, frozenset())
@@ -451,6 +465,8 @@ def census_diff(a, b):
 
 # ------------------------------------------------------------------ check
 def run(ctx):
+    import mimetypes
+    mimetypes.add_type("text/x-verif", ".verif")    # start-up configuration
     import poorwsgi.results as results
     import poorwsgi.wsgi as pwsgi
     import poorwsgi.request as prequest
